@@ -94,7 +94,9 @@ def reuse_possible(pre, final_sweep):
 UNIT_OPS = ["newU", "rel_new_old", "rel_old_new", "rel_new_mid", "clear_new", "clear_old", "drop_old", "drop_new", "sweep"]
 
 
-UNIT_STARTS = {0: (), 1: ("newU", "newU", "rel_new_old"), 2: ("newU", "newU", "rel_new_old", "newU", "rel_new_mid")}
+UNIT_STARTS = {0: (), 1: ("newU", "newU", "rel_new_old"), 2: ("newU", "newU", "rel_new_old", "newU", "rel_new_mid"),
+               # a unit dies unswept, the next one is born (at its address, under the identity adversary) and gets related
+               3: ("newU", "drop_new", "newU", "newU", "rel_old_new")}
 
 
 def unit_cases(depth):
@@ -107,7 +109,7 @@ def unit_cases(depth):
                 full = pre + seq
                 if not pre and (seq[0] != "newU" or seq.count("newU") < 2):
                     continue
-                if not any(o.startswith("rel") for o in full) or not any(o.startswith(("drop", "clear")) for o in seq):
+                if not any(o.startswith("rel") for o in full) or not any(o.startswith(("drop", "clear")) for o in full):
                     continue
                 out.append(("units", full))
     return list(dict.fromkeys(out))
